@@ -35,6 +35,9 @@ func Gen(t *rapid.T) *Case {
 		h.Replay = c.Store && !h.Ctx && rapid.Bool().Draw(t, "replaySub")
 		c.Handlers = append(c.Handlers, h)
 	}
+	if c.PanicHandler && rapid.IntRange(0, 3).Draw(t, "swapping") == 0 {
+		c.SwapAt = rapid.IntRange(1, len(c.Handlers)).Draw(t, "swapAt")
+	}
 	return c
 }
 
